@@ -159,3 +159,10 @@ CASES += [
     {"name": "at() indexes with a shifted grid point", "kind": "mutant", "rule": "C02-K", "edits": [
         ("quantarhei/qm/propagators/dmevolution.py", "        return ReducedDensityMatrix(data=self.data[ti, :, :].copy())", "        return ReducedDensityMatrix(data=self.data[ti-1, :, :].copy())", 1)]},
 ]
+
+CASES += [
+    {"name": "propagator conjugates the operators by plain transposition (the repaired defect)", "kind": "mutant", "rule": "C02-B", "edits": [
+        ("quantarhei/qm/propagators/rdmpropagator.py", "            Kd[m, :, :] = numpy.conj(numpy.transpose(Km[m, :, :]))", "            Kd[m, :, :] = numpy.transpose(Km[m, :, :])", 2)]},
+    {"name": "propagator keeps the conjugated operators in a real array", "kind": "mutant", "rule": "C02-B", "edits": [
+        ("quantarhei/qm/propagators/rdmpropagator.py", "        Kd = numpy.zeros(Km.shape, dtype=Km.dtype)", "        Kd = numpy.zeros(Km.shape, dtype=numpy.float64)", 2)]},
+]
